@@ -1,6 +1,6 @@
-(* C05 — concurrent calls are linearizable and keys do not interfere (under the hypothesis: no two concurrent WRITERS of one key). *)
+(* C05 — concurrent calls are linearizable and keys do not interfere. *)
 From Coq Require Import List NArith.
-From STH Require Import Lex Index Store Refine Conc Conc2.
+From STH Require Import Lex Index Store Refine Crash2 Conc Conc2 ConcEx.
 Import ListNotations.
 Open Scope N_scope.
 
@@ -9,8 +9,7 @@ Open Scope N_scope.
    numbers.  For ANY number of threads and ANY schedule of put-if-absent and Get calls in which no two Puts share a
    key ([init_ok]), every completed call returned what the specification returned at its linearization point, and
    the shared state is related to the specification's map.  Missing relative to the full property: overwrite and
-   Remove programs, the multi-step Flush, and same-key concurrent writers (for which the property is FALSE on the
-   code: recorded finding C05-same-key-writers). *)
+   Remove programs, the multi-step Flush, and same-key concurrent writers: all of these are in the theorem below. *)
 Theorem C05_linearizable_partial :
   forall bits (U : bytes -> Prop), unrelated bits U ->
   forall s m calls sched, init_ok bits U s m calls ->
@@ -22,13 +21,14 @@ Print Assumptions C05_linearizable_partial.
 (* Put (new key / overwrite / identical value / rejected in immutable mode), Get, Has, GetSize and Remove as programs of atomic steps, Flush as one step taken at the instant its pools are swapped,
    one per critical section of the real code (index lookup under the bucket lock | primary read outside it | primary
    pool append | index insert / update / remove); ghost state = the specification map, changed only at linearization
-   points.  For ANY number of threads, ANY schedule (list of thread numbers) and either immutable mode, if no two
-   WRITERS address the same key ([init_ok2]): every completed call returned exactly what the specification answered at
-   its linearization point - in particular no call fails and no call changes or hides another key - and the shared
-   state is related to the specification map.  Readers may race with the writer of their own key.
+   points.  Writers hold the KEY LOCK of their key from the lookup to the index update (Store.keyLks): a Put or Remove whose
+   key's stripe is held by another thread cannot take its first step.  For ANY number of threads, ANY calls - several writers
+   may address one key - ANY schedule (list of thread numbers) and either immutable mode: every completed call returned exactly
+   what the specification answered at its linearization point - in particular no call fails and no call changes or hides
+   another key - and the shared state is related to the specification map.  Readers may race with the writers of their own key.
+   ([init_ok2] only says that the store is related to the map and the keys are well-formed.)
    Missing relative to the full property: the steps INSIDE a Flush (log append, bucket-table update: justified as invisible because
-   lookups consult the swapped-out pool, which the replay of real schedules through that window checks), and same-key
-   concurrent writers, for which the property is FALSE on the code (recorded finding, known_findings.json). *)
+   lookups consult the swapped-out pool, which the replay of real schedules through that window checks). *)
 Theorem C05_linearizable_put_get_remove :
   forall imm bits (U : bytes -> Prop), unrelated bits U ->
   forall s m calls sched, init_ok2 bits U s m calls ->
@@ -36,3 +36,21 @@ Theorem C05_linearizable_put_get_remove :
     R bits U s' m' /\ forall t r lin, nth_error ps t = Some (QDone r lin) -> r = lin.
 Proof. exact conc_linearizable2. Qed.
 Print Assumptions C05_linearizable_put_get_remove.
+
+(* "every call returns": the key lock cannot deadlock - a writer that cannot step waits for a thread that holds a lock, and a
+   thread that holds a lock is never blocked (inside its call it takes no further key lock) *)
+Theorem C05_key_lock_never_deadlocks :
+  forall ps p, blocked ps p = true -> exists u q, nth_error ps u = Some q /\ holds q <> None /\ blocked ps q = false.
+Proof. exact blocked_waits_for_a_running_holder. Qed.
+Print Assumptions C05_key_lock_never_deadlocks.
+
+(* the hypotheses are met by writers of ONE key: Put(K, v2), Remove(K) and Get(K) interleaved; the Remove waits for the Put *)
+Theorem C05_same_key_writers_are_serialised :
+  let K := [18;6;7;7;7;1;1;10] in
+  let setup := [OPut K [97;97]; OFlush [7]] in
+  let s0 := run_state (init 8 1048576 1048576 false) setup in
+  let '(s', m', ps) := exec2 false (s0, spec_state false sempty setup, map QStart [QPut K [98;98]; QRemove K; QGet K])
+                             [0; 0; 1; 1; 2; 1; 0; 2; 1; 1; 1]%nat in
+  ps = [QDone ROk ROk; QDone (RBool true) (RBool true); QDone (RVal true [97;97]) (RVal true [97;97])] /\ m' [7;7;7;1;1;10] = None.
+Proof. exact same_key_writers_are_serialised. Qed.
+Print Assumptions C05_same_key_writers_are_serialised.
